@@ -974,6 +974,45 @@ def r9(ctx):
     ctx.counters['interpreted_cases'] += n
     ctx.emit('C17-R9', ok, BINCOUNTS, f, f'{n} tiling problems (region x bin size x blacklist x fragment size): the tiling is an exact partition with contained fetch windows' if ok else f'tiling problem {wit}',
              key='tiling-model', witness=wit, what='blacklisted_binning: ' + (str(wit.get('problem')) if wit else ''))
+    # the per-contig wrapper: contigs shorter than, equal to and longer than the bin size, with and without blacklist entries, with and without a whitelist
+    g = ctx.fn(BINCOUNTS, 'blacklisted_binning_contigs')
+    try:
+        import itertools
+        from ..consteval import run_function, module_scope, Unfoldable, Raised
+        env = module_scope(ctx.ix, BINCOUNTS)
+        sizes = [('c1', 9), ('c2', 3), ('c3', 5), ('c4', 2)]
+        black = {'c1': [(2, 4)], 'c2': [(1, 2)], 'c3': [(0, 1), (4, 5)]}
+
+        def hook(ev, call, env_):
+            if (dotted(call.func) or '').split('.')[-1] == 'get_bins_from_bed_dict':
+                return {k_: list(v_) for k_, v_ in black.items()}
+            return NotImplemented
+        bad, nc = None, 0
+        for bs, F, wl in itertools.product((5, 2, 20), (None, 1), (None, ['c1', 'c2', 'c4'])):
+            nc += 1
+            got = [tuple(t_) for t_ in run_function(g, [list(sizes), bs, F], {'blacklist_path': 'black.bed', 'contig_whitelist': wl}, env=env, call_hook=hook, budget=200000)]
+            for c_, ln in sizes:
+                mine = [t_ for t_ in got if t_[0] == c_]
+                if wl is not None and c_ not in wl:
+                    if mine and bad is None:
+                        bad = {'bin size': bs, 'fragment size': F, 'whitelist': wl, 'problem': f'contig {c_} is not in the whitelist but gets bins {mine[:2]}'}
+                    continue
+                B = {x for a_, b_ in black.get(c_, []) for x in range(a_, b_)}
+                cover = [x for t_ in mine for x in range(t_[1], t_[2])]
+                problem = None
+                if sorted(cover + sorted(B)) != list(range(0, ln)):
+                    problem = f'contig {c_} (length {ln}, blacklist {black.get(c_, [])}): bins {[t_[1:3] for t_ in mine]} and the blacklist do not cover it exactly once'
+                elif any(t_[2] - t_[1] > bs for t_ in mine):
+                    problem = f'contig {c_}: a bin of {[t_[1:3] for t_ in mine]} is larger than the bin size {bs}'
+                elif F is not None and any(len(t_) != 5 or set(range(t_[3], t_[4])) & B or t_[3] > t_[1] or t_[4] < t_[2] for t_ in mine):
+                    problem = f'contig {c_}: a fetch window of {mine} does not contain its bin or reaches into the blacklist'
+                if problem and bad is None:
+                    bad = {'bin size': bs, 'fragment size': F, 'whitelist': wl, 'problem': problem}
+        ctx.counters['interpreted_cases'] += nc * len(sizes)
+        ctx.emit('C17-R9', bad is None, BINCOUNTS, g, f'blacklisted_binning_contigs on {len(sizes)} model contigs x {nc} settings: every contig of the whitelist is tiled exactly, off its blacklist' if bad is None else
+                 f'blacklisted_binning_contigs on model contigs: {bad}', key='tiling-model:contigs', witness=bad, what='blacklisted_binning_contigs: ' + (bad or {}).get('problem', ''))
+    except (Unfoldable, Raised, Exception) as e_:
+        ctx.emit('C17-R9', True, BINCOUNTS, g, f'blacklisted_binning_contigs is outside the interpreted subset ({type(e_).__name__}): decided by the structural rules only', key='tiling-model:contigs', nontrivial=False)
 
 
 META = {
